@@ -17,7 +17,8 @@ def run(v, workdir, replay):
               "distinct (set of call paths of the nodes, number of rounds, classes of abandoned proposals seen, block has txs) cells "
               "among blocks with >=1 user transaction or an upgrade")
     v.assumptions = ["the harness plays CometBFT and only issues call sequences the ABCI spec allows",
-                     "vote extensions are empty in this profile (signed extensions are exercised by the C15 profile)"]
+                     "post-Aspen blocks carry signed oracle vote extensions of the validator set in force (updates applied with CometBFT's two-height lag, "
+                     "more than 2/3 of the power committing); when a validator the application has already dropped would be needed for 2/3 the harness falls back to an empty extended commit"]
     hists = chainlog.run_chain(v, workdir, "paths")
     check(v, hists)
     v.need("blocks", 200 if v.tier == "quick" else 5000)
@@ -29,11 +30,14 @@ def run(v, workdir, replay):
     v.need("abandoned_corrupt_round_seen", 8)
     v.need("upgrade_blocks", 6)
     v.need("restarts", 4)
+    v.need("blocks_with_signed_vote_extensions", 40)
+    v.need("blocks_changing_currency_pairs", 5)
 
 
 def check(v, hists):
     for h in hists:
         by_height = collections.defaultdict(list)
+        intents = {e["id"]: e.get("intent", "") for e in h.events if e.get("kind") == "tx_built"}
         for e in h.events:
             if "height" in e:
                 by_height[e["height"]].append(e)
@@ -58,6 +62,10 @@ def check(v, hists):
             v.saw("restarts", sum(1 for e in evs if e["kind"] == "restart"))
             prep = [e for e in evs if e["kind"] == "abci" and e["call"] == "prepare"]
             ntx = max([e.get("n_txs", 0) for e in fin] + [0])
+            if any(e["kind"] == "eci" and e.get("committed_power", 0) > 0 for e in evs):
+                v.saw("blocks_with_signed_vote_extensions")
+            if any(e["kind"] == "tx_built" and e.get("intent", "").startswith("currency_pairs:") for e in evs):
+                v.saw("blocks_changing_currency_pairs")
             lab_begin = [e for e in evs if e["kind"] == "lab_begin"]
             upgrade = any(e.get("upgrade_hashes", 0) for e in lab_begin)
             if upgrade:
@@ -76,7 +84,19 @@ def check(v, hists):
                 bad = (e["call"] in ("prepare", "finalize") and r != "ok") or (e["call"] == "process" and e.get("class") == "decided" and r != "ok") \
                     or r.startswith("panic")
                 if bad:
-                    v.violate("C05/path-failure/%s/%s" % (e["call"], chainlog.err_class(r)),
+                    ctx = ""
+                    if e["call"] == "finalize" and "apply prices from vote extensions" in r:
+                        # which situation: prices applied on top of an already executed (cached) block, and does the block
+                        # itself remove a currency pair?
+                        decided_ids = set()
+                        for pe in prep:
+                            if pe.get("decided"):
+                                decided_ids.update(pe.get("tx_ids") or [])
+                        removes = any(intents.get(i, "").startswith("currency_pairs:remove") for i in decided_ids)
+                        ctx = "/%s/%s" % ("after-cached-execution" if e.get("path", 0) <= 5 else "without-cached-execution",
+                                          "block-removes-a-priced-currency-pair" if removes else "no-pair-removal-in-block")
+                    v.saw("finalize_failures_seen")
+                    v.violate("C05/path-failure/%s/%s%s" % (e["call"], chainlog.err_class(r), ctx),
                               "%s failed on node %s at height %d along a legal call path: %s" % (e["call"], e["node"], height, r[:160]), wit)
             oks = [e for e in fin if e["result"] == "ok"]
             if len({e["app_hash"] for e in oks}) > 1:
